@@ -74,7 +74,7 @@ func genC09(r *h.Rng, tier string, idx int) *h.Plan {
 	steps := r.Range(8, 24)
 	for i := 0; i < steps; i++ {
 		l := r.Pick(locs)
-		switch r.Weighted([]int{6, 2, 4, 1, 5, 1, 3}) {
+		switch r.Weighted([]int{6, 2, 4, 1, 5, 1, 3, 2}) {
 		case 0:
 			f := map[string]interface{}{"at": l, "n": r.Pick([]string{"x", "y", "z"}), "v": float64(r.Range(0, 2))}
 			p.Ops = append(p.Ops, h.Op{K: "addfact", Loc: l, Id: r.Pick(factIds), J: f})
@@ -129,6 +129,13 @@ func genC09(r *h.Rng, tier string, idx int) *h.Plan {
 			p.Ops = append(p.Ops, h.Op{K: "setparents", Loc: l, L: ps})
 		case 5:
 			p.Ops = append(p.Ops, h.Op{K: "enable", Loc: l, Id: "r" + r.Pick(locs), B: r.Bool()})
+		case 7:
+			// the rule-side entry points of inheritance (and of the loop check)
+			if r.Bool() {
+				p.Ops = append(p.Ops, h.Op{K: "searchrules", Loc: l, J: map[string]interface{}{"ping": r.Pick([]string{"a", "b"})}, B: true})
+			} else {
+				p.Ops = append(p.Ops, h.Op{K: "listrules", Loc: l, B: true})
+			}
 		case 6:
 			// a condition query: the third path (besides inherited search and
 			// dispatch) on which a location sees its parents' facts
